@@ -172,6 +172,10 @@ def run_c08(pid):
         for j in jobs:
             if j["pcm_id"] == pidn:
                 j["pcm"] = pcm_spec(sig, pidn, frames)
+    # every 40th run is repeated through the path-taking constructor over an existing, longer file
+    for i, j in enumerate(jobs):
+        if i % 40 == 7:
+            j["path_dir"] = wd
     # shuffle so that "first run of a group" is not always the one-shot reference
     rnd.shuffle(jobs)
     chunks = [jobs[i::8] for i in range(8)]
